@@ -168,4 +168,5 @@ def check(ctx):
     from .. import startpath as SP
     SP.reap_target_rule(ctx, prog, "C20.H7p")      # ... and on every path of the start code the pid is the one fork() just returned
     res, F, I = c12.check_m1(ctx, "posix-mt")
-    c12.check_m2(ctx, prog, res, F)
+    if res is not None:
+        c12.check_m2(ctx, prog, res, F)
